@@ -790,7 +790,17 @@ class Sim:
                 fb = any(v in self.ref.feedbacks for v in ev['newset'])
                 for d, t in self.expect_after_success(u, ev['newset']):
                     self.flags[(d, t)] = True
-                    self.event_runid[d] = None if fb else u.runid
+                merged = {}
+                for d, _t in self.expect_after_success(u, ev['newset']):
+                    new = None if fb else u.runid
+                    if d not in merged and before[d][0]:
+                        # still waiting for an earlier event: one run for
+                        # both, under the newer run ID (none = a fresh one)
+                        held = self.event_runid.get(d)
+                        new = (None if held is None or new is None
+                               else max(held, new))
+                    merged.setdefault(d, new)
+                self.event_runid.update(merged)
             else:
                 for d in self.ref.descendants[u.jobid]:
                     self.flags.pop((d, u.target), None)
@@ -970,6 +980,20 @@ def histories(draw, weights=None, max_ops=60, min_ops=4, spec_kw=None,
     if kw.get('events'):
         case['timers'] = True
     return case
+
+
+def reply_dropped_by_known_finding(sim, ev):
+    '''the reply of ev belongs to a unit whose 'doing' entry was cleared by an
+    upstream failure (schedule.purge) and whose job had left the queue before
+    the reply arrived: farm.Hand._res drops it ("Could not find job").  Listed
+    in known_findings.json under each property it shows in.'''
+    u = ev.get('unit')
+    return (u is not None and u.key in sim.lost_keys
+            and not ev.get('job_queued', True)
+            and not any(c[0] == 'complete' for c in ev['calls']))
+
+
+KNOWN_DROP = 'reply/dropped@doing-cleared-by-upstream-purge'
 
 
 def run_history(case, on_event, at_end=None, pid=None, setup=None):
